@@ -374,6 +374,11 @@ def run(ctx, chk):
                 lemma_pre = False
                 break
             want = O(64, 'umin', O(64, 'sub', C(64, 0xa0), O(64, 'zext', off0)), O(64, 'udiv', clocks, C(64, 4)))
+            if T.is_int(n0) and n0[1] < 64:
+                n0 = O(64, 'zext', n0)          # counters kept in a narrower type (u8): compared as numbers
+            if offinv is not None:
+                envp = envp.copy()
+                envp.assume(off0, offinv)       # the field invariant of the saved offset (C16.2 offset-invariant)
             if not ((n0 == want) or bool(bvproof.equal_under(n0, want, envp, 64))):
                 lemma_pre = False
                 break
